@@ -15,3 +15,33 @@ package logger
 //@   effects log
 //@ func Printf(format, a)
 //@   effects log
+
+// ---- sinks (C05, C18) ------------------------------------------------------------------------------------------------------------
+// The options are function values; each may write the option record it is given and nothing else (ASSUMED of
+// the callers of SetupLogger, listed by the checker).  What SetupLogger does with the record is verified:
+// with a log file the info logger goes to that file and the error logger stays on stderr; disabled, the
+// error logger stays on stderr; only ForTest silences it.
+
+//@ behaviour loggerOpt(opt)
+//@   assigns *opt
+//@
+//@ func SetupLogger(options)
+//@   requires forall(i, 0, len(options), options[i] != nil)
+//@   behaves options loggerOpt
+//@   assigns logger, elogger
+//@   ensures {C05,C18} logger != nil && elogger != nil
+//@   check {C05,C18} opt.enabled && opt.out != nil ==> logSink(logger) == opt.out
+//@   check {C05,C18} opt.enabled && opt.out != nil && !opt.forTest ==> logSink(elogger) == box(os.Stderr)
+//@   check {C05,C18} !opt.enabled && !opt.forTest ==> logSink(elogger) == box(os.Stderr)
+//@   check {C18} !opt.enabled ==> logSink(logger) == io.Discard
+//@   loop 1 invariant $k <= len(options)
+//@
+//@ func Enable() (r)
+//@   behaves r loggerOpt
+//@   ensures r != nil
+//@ func Output(out) (r)
+//@   behaves r loggerOpt
+//@   ensures r != nil
+//@ func ForTest() (r)
+//@   behaves r loggerOpt
+//@   ensures r != nil
